@@ -104,7 +104,7 @@ Qed.
 Lemma fq_seek_unfold ffuel r line byte_ :
   fq_seek ffuel r line byte_ =
   let pos := (Z.of_nat (p0 r) + (Z.of_nat byte_ - Z.of_nat (qbyte r)))%Z in
-  if ((0 <=? pos) && (pos <? Z.of_nat (length (qbuf r))))%Z then
+  if ((0 <=? pos) && (pos <? Z.of_nat (length (qbuf r))))%Z && negb (fq_state_eqb (qst r) QNew) then
     (qset_p1 (qset_p0 (qset_st (qset_inc (qset_byte (qset_line r line) byte_) None) QPositioned)
                       (Z.to_nat pos)) 0, QOOk)
   else
@@ -229,8 +229,9 @@ Proof.
   pose proof (qw_pos _ _ _ _ W) as Hp.
   rewrite fq_seek_unfold. cbv zeta.
   set (pos := (Z.of_nat (p0 r) + (Z.of_nat byte_ - Z.of_nat (qbyte r)))%Z).
-  destruct ((0 <=? pos)%Z && (pos <? Z.of_nat (length (qbuf r)))%Z) eqn:Ein.
+  destruct ((0 <=? pos)%Z && (pos <? Z.of_nat (length (qbuf r)))%Z && negb (fq_state_eqb (qst r) QNew)) eqn:Ein.
   - (* the target lies in the buffer *)
+    apply andb_true_iff in Ein. destruct Ein as [Ein _].
     apply andb_true_iff in Ein. destruct Ein as [E1 E2].
     apply Z.leb_le in E1. apply Z.ltb_lt in E2.
     assert (Hpn : Z.to_nat pos + off = byte_) by (unfold pos in *; lia).
